@@ -11,6 +11,7 @@ import (
 	"pgregory.net/rapid"
 
 	"verifharness/band"
+	"verifharness/mat"
 	"verifharness/spec"
 )
 
@@ -63,7 +64,19 @@ func runStatic(c *Ctx, cs *spec.Case, perFile bool) *staticResult {
 		return sr
 	}
 	if ue := b.An.UserErrors(); len(ue) > 0 {
-		sr.Discard, sr.Detail = "harness-user-package-error", fmt.Sprint(ue)
+		// an error reported in a user file can still be caused by an emitted file (e.g. a
+		// generated import that clashes with a package-level identifier): decide by checking
+		// the user package on its own
+		dirs := map[string]string{}
+		for i := range cs.Exts {
+			e := &cs.Exts[i]
+			dirs[mat.Module+"/"+e.Path] = b.L.ExtDirs[e.Key]
+		}
+		if band.UserPackageAloneOK(c.importer(), mat.Module+"/"+mat.UserPkg, b.L.AppDir, dirs) {
+			b.An.PromoteUserErrors()
+		} else {
+			sr.Discard, sr.Detail = "harness-user-package-error", fmt.Sprint(ue)
+		}
 	}
 	return sr
 }
